@@ -156,6 +156,59 @@ def _role_oracle(text, target, creds):
     return m.lower() in [r.lower() for r in creds.get('roles', [])]
 
 
+def _context_histories():
+    """one long-lived enforcer, several RequestContext objects of ONE request (same request id): the role check reads the
+    roles of the credentials it is given NOW (an elevated copy, a copy with roles dropped, a context whose role list was
+    replaced), whatever was enforced before"""
+    import copy
+    import warnings
+    from oslo_config import cfg
+    from oslo_context import context as _ctx
+    from oslo_policy import policy, opts
+    ev = 0
+    viol = []
+    conf = cfg.ConfigOpts()
+    conf([], project='verif', default_config_files=[], default_config_dirs=[])
+    opts._register(conf)
+    e = policy.Enforcer(conf, use_conf=False)
+    e.set_rules(policy.Rules.from_dict({'adm': 'role:admin', 'mem': 'role:member', 'tgt': 'role:%(r)s'}), use_conf=False)
+    base = _ctx.RequestContext(roles=['member'], request_id='req-verif-1', user_id='u', project_id='p')
+    elevated = copy.copy(base)
+    elevated.roles = ['member', 'admin']
+    dropped = copy.copy(base)
+    dropped.roles = []
+    other = _ctx.RequestContext(roles=['admin'], request_id='req-verif-2')
+    seqs = [[('base', base), ('elevated', elevated), ('base', base), ('dropped', dropped), ('other', other), ('elevated', elevated)],
+            [('elevated', elevated), ('dropped', dropped), ('base', base), ('base', base), ('other', other), ('dropped', dropped)]]
+    for seq in seqs:
+        for si, (nm, cx) in enumerate(seq):
+            for pol, tgt, want in (('adm', {}, 'admin' in cx.roles), ('mem', {}, 'member' in cx.roles),
+                                   ('tgt', {'r': 'ADMIN'}, 'admin' in cx.roles), ('tgt', {'r': 'member'}, 'member' in cx.roles)):
+                ev += 1
+                try:
+                    with warnings.catch_warnings():
+                        warnings.simplefilter('ignore')
+                        got = bool(e.enforce(pol, tgt, cx))
+                except Exception as ex:     # noqa
+                    got = 'raised %s' % type(ex).__name__
+                if got != want and len(viol) < 3:
+                    viol.append({'key': ('context-history', tuple(n for n, _ in seq), si, pol),
+                                 'detail': 'step %d of %r: enforce(%r) with the %s context (roles %r) decided %r, expected %r' % (
+                                     si, [n for n, _ in seq], pol, nm, list(cx.roles), got, want)})
+    # the same context object after its role list was replaced
+    cx = _ctx.RequestContext(roles=['member'], request_id='req-verif-3')
+    for roles in (['member'], ['admin'], [], ['member', 'admin']):
+        cx.roles = roles
+        ev += 1
+        got = bool(e.enforce('adm', {}, cx))
+        if got != ('admin' in roles) and len(viol) < 3:
+            viol.append({'key': ('context-roles-replaced', tuple(roles)),
+                         'detail': 'the same context with roles replaced by %r: role:admin decided %r' % (roles, got)})
+    return {'name': 'role check through enforce, context histories', 'evaluations': ev, 'distinct_nontrivial': ev,
+            'rule': 'one enforcer, contexts of one request id with different role lists in two orders, a context whose roles are replaced',
+            'exhaustive': False, 'samples': [], 'violations': viol}
+
+
 def c04(tier='quick', seed=0):
     texts = ['role:admin', 'role:%(target.secret.required_role)s', 'role:%(target.token.role)s', 'role:%(password)s',
              'role:%(api_key)s', 'role:%(r)s', 'role:%(auth_token)s-%(r)s',
@@ -167,6 +220,9 @@ def c04(tier='quick', seed=0):
              {'roles': ['Admin', 'Keeper']}, {'roles': ['x']},
              {'roles': ['password=abc']}, {'roles': ['ADMIN'], 'password': 'x', 'token': 'admin'}]
     import itertools as _it
+    hist = _context_histories()
+    if hist['violations']:
+        return hist
     return _through_enforce('role check through enforce', 'role: rules (literal and placeholder forms whose target keys and values '
                             'look like secrets: password, token, secret, api_key) x 6 targets x 7 credential sets, through '
                             'Rules.load and Enforcer.enforce with the library logger at WARNING and at DEBUG',
